@@ -730,6 +730,9 @@ def gen_snap():
              "check_materials(world,&mutresult)?;", "check_meshes(world,&mutresult)?;", "check_audios(world,&mutresult)?;"]
     pos = [bb.find(c) for c in calls]
     build_order = all(p >= 0 for p in pos) and pos == sorted(pos)
+    # every EntitySpawn is moved in front of every component before anything else is appended (repair of D21)
+    k = bb.find("result.sort_by_key(|msg|!matches!(msg,Message::EntitySpawn{..}));")
+    entities_first = build_order and pos[0] < k < pos[1] and bb.count("result.sort") == 1 and "result.reverse" not in bb and "result.swap" not in bb
     cb = squash_src(fn_body(full_src, "check_entity_components"))
     j1 = cb.find("ifletSome(sid)=track.entity_to_uuid.get(&e_id){if!entity_ids_sent.contains(&e_id){result.push(Message::EntitySpawn{id:*sid});")
     j2 = cb.find("ifletSome(sid)=track.entity_to_uuid.get(&e_id){result.push(Message::ComponentUpdated{")
@@ -744,7 +747,7 @@ def gen_snap():
         classes = classes and ("if" + sw + "{") in b and "AssetId::Uuid{uuid:id}=idelse{continue;}" in b.replace("let", "")
     text = "/-! GENERATED by /verif/translate/translate.py from src/server/{receiver,initial_sync}.rs, src/full_sync/mod.rs, src/client/receiver.rs — do not edit. -/\nnamespace BevySync\nnamespace Generated\n\n"
     for name, val in (("snapRequestQueuesClosure", queued), ("snapSentInOrderThenFinished", ordered), ("snapBuildOrder", build_order),
-                      ("snapSpawnBeforeComponents", spawn_first), ("snapParentsOfKnownPairs", parents), ("snapClientIgnoresUnknownEntity", ignores),
+                      ("snapSpawnBeforeComponents", spawn_first), ("snapEntitiesFirst", entities_first), ("snapParentsOfKnownPairs", parents), ("snapClientIgnoresUnknownEntity", ignores),
                       ("snapAssetClassesGated", classes)):
         text += "def %s : Bool := %s\n" % (name, str(bool(val)).lower())
     text += FOOTER
